@@ -83,10 +83,14 @@ pub fn generate(
                     }
                     CustomType::Yes(_) => {
                         // Once signed bitenum or bitfield-base-data-types are a thing, we'll need to pay special attention to sign extension here
+                        // The raw type is spelled out so that a custom type of the wrong width is a type error even for
+                        // write-only fields (for readable fields the getter's new_with_raw_value() call already ensures that)
                         if field_definition.use_regular_int {
-                            quote! { field_value.raw_value() }
+                            let raw_type = &field_definition.primitive_type;
+                            quote! { ::core::convert::identity::<#raw_type>(field_value.raw_value()) }
                         } else {
-                            quote! { field_value.raw_value().value() }
+                            let raw_type = TokenStream2::from_str(format!("arbitrary_int::u{}", total_number_bits).as_str()).unwrap();
+                            quote! { ::core::convert::identity::<#raw_type>(field_value.raw_value()).value() }
                         }
                     }
                 };
